@@ -101,6 +101,8 @@ def canon_int_value(v):
         for x in v:
             if isinstance(x, str):
                 parts.append("n:" + x)
+            elif type(x) is bool:
+                parts.append("b:%d" % int(x))
             elif type(x) is int:
                 parts.append("i:%d" % x)
             else:
@@ -128,11 +130,98 @@ def impl_roundtrip_text(ser, block, z, pod):
     if v is se.UNSERIALIZABLE:
         return "U -> -"
     t = canon_int_value(v)
+    if pod and len(POD_VALUES) < POD_CAP[0] and t not in POD_VALUES and in_literal_fragment(v):
+        POD_VALUES[t] = v
     try:
         r = ser.serialize(block, v)
     except Exception:
         return t + " -> EXC"
     return t + " -> " + enc_text(r)
+
+
+POD_VALUES = {}
+POD_CAP = [4000]
+
+
+def in_literal_fragment(v):
+    """ints, bools, str, flat tuples of str / int (what Subfield/Literal.v prints and parses)"""
+    if type(v) in (int, bool, str):
+        return True
+    return type(v) is tuple and all(type(x) in (int, str) for x in v)
+
+
+def corr_literals(ctx):
+    """the model's repr / literal_eval fragment against CPython's on the plain-data values seen in this run"""
+    res = CorrResult(suite="plain-data literals: model printer/parser vs repr / ast.literal_eval",
+                     rule="every distinct plain-data value (int, bool, name, flat tuple of names / ints) produced by the "
+                          "registered and synthetic integer serializers in this run: the extracted printer must equal "
+                          "repr(value) byte for byte and classify it safe, the extracted parser applied to repr(value) must "
+                          "equal ast.literal_eval; plus soundness of the parser on hand-written and randomly mutated texts "
+                          "(whatever the model accepts, literal_eval accepts with an equal value); non-trivial = tuples and names")
+    vals = dict(POD_VALUES)
+    for v in (0, -1, 5, 10 ** 30, -(2 ** 64), True, False, "", "A", "a_b9", (), ("A",), (7,), ("A", "B", -4), (1, 2, 3)):
+        vals.setdefault(canon_int_value(v), v)
+    items = list(vals.items())
+    lines = ["p " + t for t, _ in items] + ["q " + repr(v).encode().hex() for _, v in items]
+    texts = ["(5)", "007", "-0", "(5,)", "( 5,)", "('A', 4,)", "(1,2)", "--1", "'a b'", "(,)", "()", "(())", "5,", "''", "'A'",
+             "True", "False", "Tru", "(True, 'x')", "-", "", "(", ")", "(5", "'A", "('A' )", "('A',  4)", "0", "00", "-007",
+             "(0,)", "('A', -0)", "1_0", "'_'", "(\"A\",)", "+5", "(-5,)", "( )", "(5,,)"]
+    rng = ctx.rng
+    reprs = [repr(v) for _, v in items]
+    alphabet = "()', -0123456789ATru_ e"
+    for _ in range(ctx.pick(1500, 30000)):
+        r = rng.choice(reprs)
+        i = rng.randrange(len(r) + 1)
+        k = rng.random()
+        if k < 0.4 and r:
+            i = min(i, len(r) - 1)
+            r = r[:i] + r[i + 1:]
+        elif k < 0.8:
+            r = r[:i] + rng.choice(alphabet) + r[i:]
+        elif r:
+            i = min(i, len(r) - 1)
+            r = r[:i] + rng.choice(alphabet) + r[i + 1:]
+        texts.append(r)
+    texts = [t for t in dict.fromkeys(texts) if all(32 <= ord(c) < 127 for c in t)]
+    lines += ["q " + t.encode().hex() if t else "q" for t in texts]
+    out = ctx.run_driver(lines)
+    n = len(items)
+    nontriv = 0
+    for (t, v), po, qo in zip(items, out[:n], out[n:2 * n]):
+        want = "safe " + repr(v).encode().hex()
+        ident = all(c.isalnum() or c == "_" for x in (v if isinstance(v, tuple) else (v,)) if isinstance(x, str) for c in x) \
+            and all(ord(c) < 128 for x in (v if isinstance(v, tuple) else (v,)) if isinstance(x, str) for c in x)
+        if not ident:
+            if po.startswith("safe"):
+                res.disagreements.append({"what": "printer calls a non-identifier name safe", "value": t, "model": po[:120]})
+            continue
+        if po != want:
+            res.disagreements.append({"what": "repr", "value": t, "model": po[:200], "impl": want[:200]})
+        try:
+            lit = canon_int_value(ast.literal_eval(repr(v)))
+        except Exception as ex:
+            lit = "EXC:" + type(ex).__name__
+        if qo != lit or lit != t:
+            res.disagreements.append({"what": "literal_eval(repr)", "value": t, "model": qo[:200], "impl": lit[:200]})
+        if isinstance(v, (tuple, str)):
+            nontriv += 1
+    sound = 0
+    for txt, qo in zip(texts, out[2 * n:]):
+        if qo in ("NONE", "?"):
+            continue
+        sound += 1
+        try:
+            lit = canon_int_value(ast.literal_eval(txt))
+        except Exception as ex:
+            lit = "EXC:" + type(ex).__name__
+        if lit != qo:
+            res.disagreements.append({"what": "parser accepts a text literal_eval reads differently", "text": txt, "model": qo[:200], "impl": lit[:200]})
+    res.evaluations = len(lines)
+    res.distinct_nontrivial = nontriv
+    res.distribution = {"values": n, "texts": len(texts), "texts accepted by the model": sound}
+    res.samples = [{"value": t, "repr": repr(v)} for t, v in items[:3]]
+    del res.disagreements[40:]
+    return res
 
 
 def check_int(ser, block, z, pod):
@@ -729,7 +818,9 @@ def correspond(ctx):
     corpus_res = run_corpus(ctx)
     if corpus_res:
         out.append(corpus_res)
-    out += [corr_ints(ctx, reg), corr_bytes(ctx, reg), corr_dates(ctx, reg)]
+    POD_VALUES.clear()
+    POD_CAP[0] = ctx.pick(4000, 80000)
+    out += [corr_ints(ctx, reg), corr_literals(ctx), corr_bytes(ctx, reg), corr_dates(ctx, reg)]
     summary = {}
     for r in out:
         for v in r.impl_violations:
